@@ -91,6 +91,17 @@ Theorem c03_padding_ignored : forall sliding lag trjs (pad : list Z -> nat),
 Proof. exact all_pairs_padded. Qed.
 Print Assumptions c03_padding_ignored.
 
+(* the validation, the -1 mask and the inferred state count as regenerated from assigns_to_counts *)
+Theorem c03_source_mask_and_state_count : forall x m lag,
+  gen_keep x = negb (x =? -1) /\ gen_infer_n_states m = m + 1 /\ (gen_lag_invalid lag = true <-> lag < 1).
+Proof. intros x m lag. split; [apply gen_keep_spec|]. split; [apply gen_infer_spec|apply gen_lag_invalid_spec]. Qed.
+Print Assumptions c03_source_mask_and_state_count.
+
+Theorem c03_public_function_rejects_lag_below_one : forall sliding lag maxn trjs,
+  assigns_to_counts sliding lag maxn trjs = if lag <? 1 then None else counts_matrix sliding lag maxn trjs.
+Proof. exact assigns_to_counts_spec. Qed.
+Print Assumptions c03_public_function_rejects_lag_below_one.
+
 (* Non-vacuity: a concrete non-trivial run of the model. *)
 Example c03_example :
   counts_matrix false 2 None [[0; 1; 1; 0; 1; -1; -1]; [1]; [1; 0; 0]] = Some [[0; 1]; [1; 1]]%nat
